@@ -284,6 +284,48 @@ def main():
         except Exception as ex:
             pred(rl, "resumed geometric::RRT: no observation (%s) %s" % (ex, a[:80]))
     c.cov.update({"rrt_resumed_scripts": len(rlines), "rrt_resumed_reports": dict(rrtn_stats)})
+    # ---- (d) resumed solves of geometric::RRTConnect against RrtConnectModel.rc_solves: 1-4 solve() calls, both final trees and every report
+    clines = []
+    for i in range(250 if quick else 8000):
+        grid = rng2.random() < 0.35
+        walls = [(coord(grid), lo, lo + rng2.choice([0.25, 0.5, 1.0, 3.0])) for _ in range(rng2.choice([0, 1, 1, 2, 3])) for lo in [coord(grid)]]
+        starts = [(coord(grid), coord(grid)) for _ in range(rng2.choice([1, 1, 2, 3]))]
+        goals = [(coord(grid), coord(grid)) for _ in range(rng2.choice([1, 1, 2, 4]))]
+        calls = []
+        for _ in range(rng2.choice([1, 2, 3, 4])):
+            pts = [(coord(grid), coord(grid)) for _ in range(rng2.choice([0, 1, 3, 8, 20]))]
+            calls.append("P %d %s" % (len(pts), " ".join("%r %r" % q for q in pts)))
+        clines.append("RRTCN %g W %d %s S %d %s G %d %s C %d %s" % (rng2.choice([0.1, 0.3, 0.5, 1.0, 10.0]), len(walls), " ".join("%r %r %r" % w for w in walls), len(starts), " ".join("%r %r" % q for q in starts),
+                      len(goals), " ".join("%r %r" % q for q in goals), len(calls), " ".join(calls)))
+    rcc, occ, ecc, scc = vf.sh([rdrv], input="\n".join(clines) + "\n", timeout=900); c.step("correspond:impl-rrtconnect-resume", rdrv, scc, rcc == 0)
+    rcd, ocd, ecd, scd = vf.sh([model, "rrt"], input="\n".join(clines) + "\n", timeout=900); c.step("correspond:model-rrtconnect-resume", model + " rrt", scd, rcd == 0)
+    icl, mcl = [l for l in occ.split("\n") if l.startswith("rrtcn")], [l for l in ocd.split("\n") if l.startswith("rrtcn")]
+    rcn_stats = collections.Counter()
+    def wtouches(k, a, b):
+        w, lo, hi = k
+        if (a[0] - w) * (b[0] - w) > 0.0: return False
+        if a[0] == b[0]: return (a[1] <= hi and lo <= b[1]) if a[1] <= b[1] else (b[1] <= hi and lo <= a[1])
+        t = (w - a[0]) / (b[0] - a[0]); y = a[1] + t * (b[1] - a[1]); return lo <= y <= hi
+    for k, cl in enumerate(clines):
+        a = icl[k].strip() if k < len(icl) else "<no output>"; b = mcl[k].strip() if k < len(mcl) else "<no output>"
+        if a != b:
+            ndiff += 1
+            if first_diff is None: first_diff = ("RRTConnect resumed", cl, a[:300], b[:300])
+        try:
+            w = cl.split(); nw = int(w[3]); walls = [(float(w[4 + 3 * j]), float(w[5 + 3 * j]), float(w[6 + 3 * j])) for j in range(nw)]
+            o = 4 + 3 * nw; ns = int(w[o + 1]); starts = [(float(w[o + 2 + 2 * j]), float(w[o + 3 + 2 * j])) for j in range(ns)]
+            o = o + 2 + 2 * ns; ng = int(w[o + 1]); goals = [(float(w[o + 2 + 2 * j]), float(w[o + 3 + 2 * j])) for j in range(ng)]
+            parts = [x.strip() for x in a.split("|")]
+            for q in range(1, len(parts), 2):
+                rep = parts[q].split()
+                rcn_stats["none" if rep[0] != "1" else ("exact" if rep[1] == "0" else "approximate")] += 1
+                if rep[0] == "1":
+                    path = [(flb(t.split()[0]), flb(t.split()[1])) for t in parts[q + 1].split(";") if t.strip()]
+                    if not path or path[0] not in starts or any(wtouches(kk, u, v) for u, v in zip(path, path[1:]) for kk in walls) or (rep[1] == "0" and path[-1] not in goals):
+                        pred(cl, "resumed geometric::RRTConnect: the path reported by call %d does not run from a start state (to a goal state) along wall-free motions" % ((q + 1) // 2))
+        except Exception as ex:
+            pred(cl, "resumed geometric::RRTConnect: no observation (%s) %s" % (ex, a[:80]))
+    c.cov.update({"rrtconnect_resumed_scripts": len(clines), "rrtconnect_resumed_reports": dict(rcn_stats)})
     c.cov.update({"evaluations": len(script) + stats["solves"], "traces_validated_against_impl": nscripts + stats["histories"], "distinct_nontrivial": stats["histories"],
                   "rule": "(a) %d random scripts over 1-3 problem definitions (0-4 starts, 0-3 goal states, invalid / out-of-bounds ones included) with USE / CLEAR / RESTART / NEXTSTART / NEXTGOAL / ADDSTART / MORE* operations, compared exactly; (b) %d histories over %d planners: interrupt ladder S0 S<k> (condition true at evaluation k) then resume, clear + same query, clear + new query, new query without clear, clearQuery, getPlannerData, plus random histories (thorough), on allocation-counting R2 / SE2 / R3 spaces with gap / thin-wall / box / circle maps; non-trivial = history that ran to completion" % (nscripts, len(hists), len(PLANNERS)),
                   "disagreements": ndiff, "predicate_failures": npred, "predicate_failures_by_kind": dict(failures), "failing_histories": failing[:40], "status_histogram": dict(stats), "max_further_evaluations_by_planner": dict(further_max), "skipped": skipped})
